@@ -29,14 +29,66 @@ def seq_eq(a, b):
     return a == b
 
 
-def lookup(records, key_parts):
-    """find the record whose key parts are all equal to key_parts; forks only when equality is genuinely undecided"""
+def same_syms(a, b):
+    """syntactic identity of two byte sequences (same concrete values / same solver terms) - never forks"""
+    import z3
+
+    if not V.is_byteslike(a) or not V.is_byteslike(b):
+        return False
+    x, y = V.seq_items(a), V.seq_items(b)
+    if len(x) != len(y):
+        return False
+    for p, q in zip(x, y):
+        if isinstance(p, int) or isinstance(q, int):
+            if not (isinstance(p, int) and isinstance(q, int) and p == q):
+                return False
+        elif p is not q and not z3.eq(z3.simplify(p.t), z3.simplify(q.t)):
+            return False
+    return True
+
+
+def _identical(a, b):
+    if a is b:
+        return True
+    if isinstance(a, (bytes, bytearray)) and isinstance(b, (bytes, bytearray)):
+        return bytes(a) == bytes(b)
+    if not V.is_byteslike(a) or not V.is_byteslike(b):
+        return False
+    x, y = V.seq_items(a), V.seq_items(b)
+    if len(x) != len(y):
+        return False
+    for p, q in zip(x, y):
+        if p is q:
+            continue
+        if isinstance(p, int) and isinstance(q, int) and p == q:
+            continue
+        return False
+    return True
+
+
+def lookup(records, key_parts, world=None):
+    """find the record whose key parts are all equal to key_parts; forks only when equality is genuinely undecided.
+    Two *different* whole outputs of the ideal primitives / RNG are assumed unequal (no collisions): the disequality is added
+    to the path condition so that the path's model (used for the native cross-check and replays) respects it."""
     cands = []
+    for rec in records:  # fast path: the very same objects / symbols
+        if all(_identical(x, y) for x, y in zip(rec[0], key_parts)):
+            return rec
     for rec in records:
-        eqs = [seq_eq(x, y) for x, y in zip(rec[0], key_parts)]
-        e = all_of([x if isinstance(x, (bool, V.SymBool)) else bool(x) for x in eqs])
+        eqs = []
+        for x, y in zip(rec[0], key_parts):
+            q = seq_eq(x, y)
+            q = q if isinstance(q, (bool, V.SymBool)) else bool(q)
+            eqs.append(q)
+            if q is False:
+                break
+        if any(q is False for q in eqs):
+            continue
+        e = all_of(eqs)
         if e is True:
             return rec
+        if world is not None and world.assume_distinct(rec[0], key_parts):
+            continue
         if e is not False:
             cands.append((e, rec))
     if not cands:
@@ -63,10 +115,46 @@ class World:
         self.t_ns = t_ns
         self.kdf_calls = 0
         self.kdf_log = []  # captured constructor arguments (C03)
+        self.origin = {}
+        self.distinct = set()
 
     def fresh(self, tag, n):
         self.n += 1
-        return self.c.bytes(f"{tag}{self.n}", n)
+        v = self.c.bytes(f"{tag}{self.n}", n)
+        if n >= 12 and self.c.symbolic:
+            items = V.seq_items(v)
+            self.origin[id(items[0])] = (self.n, items)
+        return v
+
+    def whole_draw(self, seq):
+        """draw number if seq is exactly one fresh vector (same solver symbols, same order), else None"""
+        if not V.is_byteslike(seq) or not isinstance(seq, V.SymSeq):
+            return None
+        items = seq.items()
+        if not items or isinstance(items[0], int):
+            return None
+        o = self.origin.get(id(items[0]))
+        if o is None or len(o[1]) != len(items) or any(a is not b for a, b in zip(o[1], items)):
+            return None
+        return o[0]
+
+    def assume_distinct(self, parts_a, parts_b):
+        """True if some corresponding pair of parts are two different fresh draws (then they are assumed unequal)"""
+        if not self.c.symbolic:
+            return False
+        import z3
+
+        for x, y in zip(parts_a, parts_b):
+            dx, dy = self.whole_draw(x), self.whole_draw(y)
+            if dx is not None and dy is not None and dx != dy:
+                key = (min(dx, dy), max(dx, dy))
+                if key not in self.distinct:
+                    self.distinct.add(key)
+                    e = x == y
+                    if isinstance(e, V.SymBool):
+                        self.c.e.add(z3.Not(e.t))
+                return True
+        return False
 
     # -- ideal KDF: a function; fresh output for new arguments
     def kdf(self, algorithm, secret, label, context, length):
@@ -75,7 +163,7 @@ class World:
         length = self.c.concretize(length)
         key = (algorithm.name, bytes(label), length)
         recs = self.kdf_records.setdefault(key, [])
-        hit = lookup(recs, (secret, context))
+        hit = lookup(recs, (secret, context), self)
         if hit is not None:
             return hit[1]
         out = self.fresh("kdf", length)
@@ -85,7 +173,7 @@ class World:
     def kdf_concat(self, algorithm, shared_secret, algorithm_id, party_uinfo, party_vinfo, length):
         key = (algorithm.name, bytes(algorithm_id), bytes(party_uinfo), bytes(party_vinfo), length)
         recs = self.concat_records.setdefault(key, [])
-        hit = lookup(recs, (shared_secret,))
+        hit = lookup(recs, (shared_secret,), self)
         if hit is not None:
             return hit[1]
         out = self.fresh("ckdf", length)
@@ -127,7 +215,7 @@ class World:
             raise keywrap.InvalidUnwrap("The wrapped key must be a multiple of 8 bytes")
         if len(wrapping_key) not in (16, 24, 32):
             raise ValueError("The wrapping key must be a valid AES key length")
-        hit = lookup(self.wraps, (wrapping_key, wrapped_key))
+        hit = lookup(self.wraps, (wrapping_key, wrapped_key), self)
         if hit is None:
             raise keywrap.InvalidUnwrap()
         return hit[1]
@@ -156,7 +244,7 @@ class World:
                     raise ValueError("Nonce must be between 8 and 128 bytes")
                 if len(data) < 16:
                     raise InvalidTag()
-                hit = lookup(world.aead, (self.key, nonce, data))
+                hit = lookup(world.aead, (self.key, nonce, data), world)
                 if hit is None:
                     raise InvalidTag()
                 return hit[1]
